@@ -255,12 +255,105 @@ def rule_d(ctx: Context, R: Reporter, syst: FuncInfo):
     R.floor("C06.d", "multinomial draw sites with p=weights", n, 1)
 
 
+def _tolerance_value(ctx: Context, fi: FuncInfo, e: ast.expr) -> Optional[float]:
+    """Numeric value of a tolerance expression: a literal, sqrt(eps) spelled with
+    math/numpy, or a module constant bound to one of those."""
+    import math
+
+    EPS = 2.220446049250313e-16
+    if isinstance(e, ast.Constant) and isinstance(e.value, (int, float)) and not isinstance(e.value, bool):
+        return float(e.value)
+    if isinstance(e, ast.Name):
+        r = ctx.prog.resolve_name(fi.module, e.id)
+        if e.id in fi.module.constants:
+            return _tolerance_value(ctx, fi, fi.module.constants[e.id])
+        if isinstance(r, tuple) and r and r[0] == "const":
+            return _tolerance_value(ctx, fi, r[1].constants[r[2]])
+        return None
+    txt = norm_text(e)
+    if "finfo" in txt and txt.endswith(".eps"):
+        return EPS
+    if isinstance(e, ast.Call):
+        nm = (ctx.res.external_name(fi, e) or dotted(e.func))
+        if nm in ("builtins.float", "float", "numpy.float64") and e.args:
+            return _tolerance_value(ctx, fi, e.args[0])
+        if nm in ("math.sqrt", "numpy.sqrt") and e.args:
+            v = _tolerance_value(ctx, fi, e.args[0])
+            return math.sqrt(v) if v is not None and v >= 0 else None
+    if isinstance(e, ast.BinOp) and isinstance(e.op, (ast.Mult, ast.Div, ast.Pow)):
+        l, r = _tolerance_value(ctx, fi, e.left), _tolerance_value(ctx, fi, e.right)
+        if l is None or r is None:
+            return None
+        try:
+            return l * r if isinstance(e.op, ast.Mult) else (l / r if isinstance(e.op, ast.Div) else l ** r)
+        except Exception:
+            return None
+    return None
+
+
+def rule_e(ctx: Context, R: Reporter, fi: FuncInfo):
+    """C06.e  the comb is laid over weights that sum to one up to sqrt(eps): the
+    routine renormalises unconditionally, or under a guard |sum(w) - 1| > T with
+    T <= sqrt(eps) (the tolerance numpy's own multinomial draw accepts).  With a
+    looser guard a sum off by 1e-6 is walked as is and the last index gains or
+    loses copies (the floor/ceil law fails)."""
+    flow = flow_of(fi.node)
+    wparam = "weights" if "weights" in fi.params else (fi.params[1] if len(fi.params) > 1 else None)
+    if wparam is None:
+        raise AnalysisError("C06.e: weights parameter of the systematic routine not identified")
+    LIMIT = 1.6e-8
+    norm_defs = []
+    for n in flow.cfg.stmt_nodes():
+        if n.kind == "stmt" and isinstance(n.stmt, (ast.Assign, ast.AugAssign)):
+            t = n.stmt.targets[0] if isinstance(n.stmt, ast.Assign) else n.stmt.target
+            if isinstance(t, ast.Name) and t.id == wparam:
+                v = n.stmt.value
+                is_div = (isinstance(n.stmt, ast.AugAssign) and isinstance(n.stmt.op, ast.Div)) or (isinstance(v, ast.BinOp) and isinstance(v.op, ast.Div))
+                den = v if isinstance(n.stmt, ast.AugAssign) else (v.right if isinstance(v, ast.BinOp) else None)
+                if is_div and den is not None and "sum" in norm_text(den):
+                    norm_defs.append(n)
+    R.floor("C06.e", "renormalisation statements in the systematic routine", len(norm_defs), 1)
+    from ..util import conds_holding_at as _cha
+    from ..util import split_cond as _split
+
+    for n in norm_defs:
+        conds = [(a, p) for (t, pol) in _cha(flow.cfg, n) for (a, p) in _split(t, pol)]
+        conds = [(a, p) for (a, p) in conds if "sum" in norm_text(a) or "close" in norm_text(a)]
+        if not conds:
+            R.check("C06.e", "weights are renormalised unless their sum is within sqrt(eps) of one", True, fi, n.stmt, key="renormalisation-guard")
+            continue
+        ok = True
+        why = ""
+        for (a, p) in conds:
+            if isinstance(a, ast.Compare) and len(a.ops) == 1 and isinstance(a.ops[0], (ast.Gt, ast.GtE)) and p is True and "abs" in norm_text(a.left):
+                tv = _tolerance_value(ctx, fi, a.comparators[0])
+                if tv is None:
+                    raise AnalysisError(f"C06.e: tolerance `{unparse(a.comparators[0])}` of the renormalisation guard is not a resolvable constant")
+                if tv > LIMIT:
+                    ok, why = False, f"tolerance {tv:g} > sqrt(eps)"
+            elif isinstance(a, ast.Call) and (ctx.res.external_name(fi, a) or "").split(".")[-1] in ("isclose", "allclose") and p is False:
+                rtol = call_arg(a, 2, "rtol")
+                atol = call_arg(a, 3, "atol")
+                rv = _tolerance_value(ctx, fi, rtol) if rtol is not None else 1e-5
+                av = _tolerance_value(ctx, fi, atol) if atol is not None else 1e-8
+                if rv is None or av is None:
+                    raise AnalysisError("C06.e: tolerances of the isclose guard are not resolvable constants")
+                if rv + av > LIMIT:
+                    ok, why = False, f"np.isclose tolerance rtol={rv:g}, atol={av:g} > sqrt(eps)"
+            else:
+                raise AnalysisError(f"C06.e: renormalisation guard `{unparse(a)[:60]}` is outside the recognised forms")
+        R.check("C06.e", "weights are renormalised unless their sum is within sqrt(eps) of one", ok, fi, n.stmt,
+                msg=f"{fi.short}: the renormalisation `{unparse(n.stmt)[:50]}` is skipped for weight sums off by more than sqrt(eps) ({why}): such a vector is walked unnormalised and "
+                    f"the last index gains or loses copies", key="renormalisation-guard")
+
+
 def run(ctx: Context, R: Reporter):
     fi = systematic_fn(ctx)
     R.guard(rule_a, ctx, R, fi)
     R.guard(rule_b, ctx, R, fi)
     R.guard(rule_c, ctx, R, fi)
     R.guard(rule_d, ctx, R, fi)
+    R.guard(rule_e, ctx, R, fi)
 
 
 def variants():
